@@ -187,47 +187,62 @@ func c20Arg(t reflect.Type, rng *rand.Rand, n int, k int) (reflect.Value, bool) 
 	return reflect.Value{}, false
 }
 
+// whether c20Arg can build an argument of type t (decided on the type alone)
+func c20ArgSupported(t reflect.Type, depth int) bool {
+	switch {
+	case t == tFloat, t == tInt, t == tBool, t == tFloats, t == tInts, t == tSample, t == tRandPtr:
+		return true
+	case t.Kind() == reflect.Interface && t.NumMethod() > 0:
+		return reflect.TypeOf(graph.IntGraph{}).Implements(t) || reflect.TypeOf(stats.NormalDist{}).Implements(t) ||
+			reflect.TypeOf(&bytes.Buffer{}).Implements(t)
+	case t.Kind() == reflect.Struct:
+		return true
+	}
+	return false
+}
+
 type c20Recv struct {
-	name string // pkg.Type
+	name string       // pkg.Type
+	typ  reflect.Type // *T (the method set that is exercised)
 	mk   func(rng *rand.Rand, n int) interface{} // pointer to a fresh receiver
 }
 
 var c20Receivers = []c20Recv{
-	{"stats.Sample", func(rng *rand.Rand, n int) interface{} {
+	{"stats.Sample", reflect.TypeOf((*stats.Sample)(nil)), func(rng *rand.Rand, n int) interface{} {
 		return &stats.Sample{Xs: c20Data(rng, n), Weights: c20Weights(rng, n)}
 	}},
-	{"stats.NormalDist", func(rng *rand.Rand, n int) interface{} { return &stats.NormalDist{Mu: 1, Sigma: 2} }},
-	{"stats.TDist", func(rng *rand.Rand, n int) interface{} { return &stats.TDist{V: 4.5} }},
-	{"stats.DeltaDist", func(rng *rand.Rand, n int) interface{} { return &stats.DeltaDist{T: 2} }},
-	{"stats.BinomialDist", func(rng *rand.Rand, n int) interface{} { return &stats.BinomialDist{N: n + 3, P: 0.3} }},
-	{"stats.HypergeometicDist", func(rng *rand.Rand, n int) interface{} {
+	{"stats.NormalDist", reflect.TypeOf((*stats.NormalDist)(nil)), func(rng *rand.Rand, n int) interface{} { return &stats.NormalDist{Mu: 1, Sigma: 2} }},
+	{"stats.TDist", reflect.TypeOf((*stats.TDist)(nil)), func(rng *rand.Rand, n int) interface{} { return &stats.TDist{V: 4.5} }},
+	{"stats.DeltaDist", reflect.TypeOf((*stats.DeltaDist)(nil)), func(rng *rand.Rand, n int) interface{} { return &stats.DeltaDist{T: 2} }},
+	{"stats.BinomialDist", reflect.TypeOf((*stats.BinomialDist)(nil)), func(rng *rand.Rand, n int) interface{} { return &stats.BinomialDist{N: n + 3, P: 0.3} }},
+	{"stats.HypergeometicDist", reflect.TypeOf((*stats.HypergeometicDist)(nil)), func(rng *rand.Rand, n int) interface{} {
 		return &stats.HypergeometicDist{N: 2*n + 5, K: n, Draws: n/2 + 1}
 	}},
-	{"stats.UDist", func(rng *rand.Rand, n int) interface{} {
+	{"stats.UDist", reflect.TypeOf((*stats.UDist)(nil)), func(rng *rand.Rand, n int) interface{} {
 		return &stats.UDist{N1: 4, N2: 5, T: houseI(rng, []int{2, 1, 3, 1, 2})}
 	}},
-	{"stats.KDE", func(rng *rand.Rand, n int) interface{} {
+	{"stats.KDE", reflect.TypeOf((*stats.KDE)(nil)), func(rng *rand.Rand, n int) interface{} {
 		return &stats.KDE{Sample: stats.Sample{Xs: c20Data(rng, n+2)}, Bandwidth: 0.75}
 	}},
-	{"stats.LinearHist", func(rng *rand.Rand, n int) interface{} {
+	{"stats.LinearHist", reflect.TypeOf((*stats.LinearHist)(nil)), func(rng *rand.Rand, n int) interface{} {
 		h := stats.NewLinearHist(0, float64(n)/2+1, 5)
 		for _, x := range c20Data(rng, n) {
 			h.Add(x)
 		}
 		return h
 	}},
-	{"stats.LogHist", func(rng *rand.Rand, n int) interface{} {
+	{"stats.LogHist", reflect.TypeOf((*stats.LogHist)(nil)), func(rng *rand.Rand, n int) interface{} {
 		h := stats.NewLogHist(2, 2, 64)
 		for _, x := range c20Data(rng, n) {
 			h.Add(x + 1)
 		}
 		return h
 	}},
-	{"stats.QuantileCIResult", func(rng *rand.Rand, n int) interface{} {
+	{"stats.QuantileCIResult", reflect.TypeOf((*stats.QuantileCIResult)(nil)), func(rng *rand.Rand, n int) interface{} {
 		r := stats.QuantileCI(n, 0.5, 0.9)
 		return &r
 	}},
-	{"fit.PolynomialRegressionResult", func(rng *rand.Rand, n int) interface{} {
+	{"fit.PolynomialRegressionResult", reflect.TypeOf((*fit.PolynomialRegressionResult)(nil)), func(rng *rand.Rand, n int) interface{} {
 		xs := make([]float64, n+3)
 		for i := range xs {
 			xs[i] = float64(i) / 4
@@ -235,17 +250,17 @@ var c20Receivers = []c20Recv{
 		r := fit.PolynomialRegression(xs, c20Data(rng, n+3), nil, 2)
 		return &r
 	}},
-	{"graphout.Dot", func(rng *rand.Rand, n int) interface{} { return &graphout.Dot{Name: "g"} }},
-	{"graph.IntGraph", func(rng *rand.Rand, n int) interface{} { g := c20Graph(rng, n); return &g }},
-	{"graph.WeightedUnit", func(rng *rand.Rand, n int) interface{} { return &graph.WeightedUnit{Graph: c20Graph(rng, n)} }},
-	{"graphalg.DomTree", func(rng *rand.Rand, n int) interface{} {
+	{"graphout.Dot", reflect.TypeOf((*graphout.Dot)(nil)), func(rng *rand.Rand, n int) interface{} { return &graphout.Dot{Name: "g"} }},
+	{"graph.IntGraph", reflect.TypeOf((*graph.IntGraph)(nil)), func(rng *rand.Rand, n int) interface{} { g := c20Graph(rng, n); return &g }},
+	{"graph.WeightedUnit", reflect.TypeOf((*graph.WeightedUnit)(nil)), func(rng *rand.Rand, n int) interface{} { return &graph.WeightedUnit{Graph: c20Graph(rng, n)} }},
+	{"graphalg.DomTree", reflect.TypeOf((*graphalg.DomTree)(nil)), func(rng *rand.Rand, n int) interface{} {
 		g := c20Graph(rng, n)
 		return graphalg.Dom(graphalg.IDom(graph.MakeBiGraph(g), 0))
 	}},
-	{"graphalg.SCCGraph", func(rng *rand.Rand, n int) interface{} {
+	{"graphalg.SCCGraph", reflect.TypeOf((*graphalg.SCCGraph)(nil)), func(rng *rand.Rand, n int) interface{} {
 		return graphalg.SCC(c20Graph(rng, n), graphalg.SCCSubnodeComponent|graphalg.SCCEdges)
 	}},
-	{"graphalg.NodeMarks", func(rng *rand.Rand, n int) interface{} {
+	{"graphalg.NodeMarks", reflect.TypeOf((*graphalg.NodeMarks)(nil)), func(rng *rand.Rand, n int) interface{} {
 		m := graphalg.NewNodeMarks()
 		for i := 0; i < n; i++ {
 			m.Mark(rng.Intn(200))
@@ -256,8 +271,9 @@ var c20Receivers = []c20Recv{
 
 // the methods of receiver type r that the generic exercise calls (name -> supported)
 func c20ReflectMethods(r c20Recv) (called []string, skipped []string) {
-	v := reflect.ValueOf(r.mk(rand.New(rand.NewSource(1)), 5))
-	t := v.Type()
+	// from the TYPE only: no library call is made here (the scan runs before the first case and
+	// must not initialise anything in the library)
+	t := r.typ
 	for i := 0; i < t.NumMethod(); i++ {
 		m := t.Method(i)
 		full := r.name + "." + m.Name
@@ -266,7 +282,7 @@ func c20ReflectMethods(r c20Recv) (called []string, skipped []string) {
 		}
 		ok := true
 		for a := 1; a < m.Type.NumIn(); a++ {
-			if _, s := c20Arg(m.Type.In(a), rand.New(rand.NewSource(1)), 5, a); !s {
+			if !c20ArgSupported(m.Type.In(a), 0) {
 				ok = false
 			}
 		}
@@ -286,6 +302,9 @@ func init() {
 			build: func(rng *rand.Rand, n int) func() *c20Inst {
 				recv := reflect.ValueOf(r.mk(rng, n))
 				t := recv.Type()
+				if t != r.typ {
+					panic("c20Receivers: " + r.name + " builds a " + t.String())
+				}
 				type mcall struct {
 					m    reflect.Value
 					args []reflect.Value
